@@ -39,42 +39,53 @@ class Flow:
         return out
 
     def _compute(self):
+        """forward may-analysis; states are dicts local -> frozenset(def sites), shared structurally (never mutated in place)"""
         n = self.n
         entry = {}
         for l in range(1, self.body["argc"] + 1):
-            entry[l] = {("entry", l)}
+            entry[l] = frozenset([("entry", l)])
         IN = [None] * n
         IN[0] = entry
-        preds = self.inst.preds(True)
+        bdefs = [self._block_defs(b) for b in range(n)]
+        self._bdefs = bdefs
+        succs = [self.inst.succ(b, True) for b in range(n)]
+        # reverse post-order worklist
         work = [0]
+        inwork = {0}
         OUT = [None] * n
-
-        def transfer(bb, st):
-            cur = {k: set(v) for k, v in st.items()}
-            for (idx, l, exact) in self._block_defs(bb):
-                if exact:
-                    cur[l] = {(bb, idx)}
-                else:
-                    cur.setdefault(l, set()).add((bb, idx))
-            return cur
         while work:
             b = work.pop()
-            out = transfer(b, IN[b])
-            if OUT[b] is not None and out == OUT[b]:
+            inwork.discard(b)
+            st = IN[b]
+            ds = bdefs[b]
+            if ds:
+                cur = dict(st)
+                for (idx, l, exact) in ds:
+                    if exact:
+                        cur[l] = frozenset([(b, idx)])
+                    else:
+                        cur[l] = cur.get(l, frozenset()) | {(b, idx)}
+            else:
+                cur = dict(st)
+            if OUT[b] is not None and cur == OUT[b]:
                 continue
-            OUT[b] = out
-            for s in self.inst.succ(b, True):
-                if IN[s] is None:
-                    IN[s] = {k: set(v) for k, v in out.items()}
-                    work.append(s)
+            OUT[b] = cur
+            for s2 in succs[b]:
+                tgt = IN[s2]
+                if tgt is None:
+                    IN[s2] = dict(cur)
+                    if s2 not in inwork:
+                        work.append(s2); inwork.add(s2)
                 else:
                     ch = False
-                    for k, v in out.items():
-                        cur = IN[s].setdefault(k, set())
-                        if not v <= cur:
-                            cur |= v; ch = True
-                    if ch:
-                        work.append(s)
+                    for k, v in cur.items():
+                        old = tgt.get(k)
+                        if old is None:
+                            tgt[k] = v; ch = True
+                        elif old is not v and not v <= old:
+                            tgt[k] = old | v; ch = True
+                    if ch and s2 not in inwork:
+                        work.append(s2); inwork.add(s2)
         self._rd_in = IN
 
     def reaching(self, local, at):
@@ -85,8 +96,8 @@ class Flow:
         st = self._rd_in[bb]
         if st is None:
             return set()
-        cur = set(st.get(local, set()))
-        for (i, l, exact) in self._block_defs(bb):
+        cur = set(st.get(local, ()))
+        for (i, l, exact) in self._bdefs[bb]:
             if i >= idx:
                 break
             if l == local:
@@ -153,6 +164,10 @@ class Flow:
         if k == "field":
             if e[0] == "agg" and p["i"] < len(e[2]) and e[1][0] in ("tuple", "closure", "array"):
                 return e[2][p["i"]]
+            # payload of an enum variant built right here: `(Some(x) as Some).0` is x
+            if e[0] == "downcast" and e[1][0] == "agg" and e[1][1][0] == "adt" and e[1][1][2] == e[2] and p["i"] < len(e[1][2]) \
+                    and e[1][1][1].startswith(("core::option::Option", "core::result::Result")):
+                return e[1][2][p["i"]]
             return ("field", e, p["n"], p["i"], p.get("bt"))
         if k == "index":
             idx = self.local(p["l"], at, depth + 1, seen)
@@ -226,7 +241,7 @@ class Flow:
         if k == "aggregate":
             ak = rv["ak"]
             if ak == "adt":
-                desc = ("adt", rv["def"], rv["variant"], tuple(rv.get("args", [])))
+                desc = ("adt", rv["def"], rv["variant"], tuple(rv.get("args", [])), rv.get("vi"))
             elif ak == "closure":
                 desc = ("closure", rv["def"], rv.get("ty"))
             else:
